@@ -924,3 +924,37 @@ def get_cases(Case):
                         init_colors={'A': [N(value=v) for v in states[1]]}))
     return out
 
+
+
+# ---------------------------------------------------------------- operators in commands -------
+def expression_cases(Case):
+    """Two-operator expressions (every ordered pair of arithmetic operators, both nestings, rendered with the fewest
+    parentheses the documented precedence allows) whose value is printed, picks an if/else branch and is sent as a hue;
+    plus mixes of comparison, logical and arithmetic operators in a condition."""
+    out = []
+    ops = ['+', '-', '*', '/', '%', '^']
+    doms = {1: ('int', -6, 6), 2: ('int', 1, 4), 3: ('int', 1, 3), 4: ('int', -20, 20)}
+
+    def body(e, cond=None):
+        a_set = R.Action('set', [R.Operand('light', R.Str('A'))])
+        b_on = R.Action('on', [R.Operand('light', R.Str('B'))])
+        if cond is None:
+            return [R.Assign('y', e), R.Print(R.Var('y'), ln=True), R.If(R.Bin('>', R.Var('y'), N(sid=4, kind='any')), [a_set], [b_on]),
+                    R.SetReg('hue', e), R.Action('set', 'all')]
+        return [R.If(cond, [a_set], [b_on]), R.Print(cond, ln=True)]
+    for o1 in ops:
+        for o2 in ops:
+            a, b, c = N(sid=1, kind='any'), N(sid=2, kind='any'), N(sid=3, kind='any')
+            out.append(Case(body(R.Bin(o1, a, R.Bin(o2, b, c))), tag='expr-%s(%s)' % (o1, o2), doms=doms))
+            out.append(Case(body(R.Bin(o2, R.Bin(o1, a, b), c)), tag='expr-(%s)%s' % (o1, o2), doms=doms))
+    a, b, c, d = (N(sid=i, kind='any') for i in (1, 2, 3, 4))
+    conds = [
+        R.Bin('and', R.Bin('>', R.Bin('+', a, b), c), R.Bin('<', d, R.Bin('*', b, c))),
+        R.Bin('or', R.Bin('==', R.Bin('%', a, b), c), R.Bin('and', R.Bin('>', d, a), R.Bin('!=', b, c))),
+        R.Bin('and', R.Bin('or', R.Bin('<', a, b), R.Bin('>=', d, c)), R.Bin('<=', R.Bin('-', d, c), a)),
+        R.Bin('<', R.Bin('-', a, R.Bin('%', d, b)), R.Bin('+', c, R.Bin('*', a, b))),
+        R.Bin('or', R.Bin('and', R.Bin('>', a, b), R.Bin('>', d, c)), R.Bin('==', R.Bin('/', d, b), c)),
+    ]
+    for i, cnd in enumerate(conds):
+        out.append(Case(body(None, cnd), tag='cond-mix-%d' % i, doms=doms))
+    return out
